@@ -199,8 +199,9 @@ _CAFF = {'c-affinity-chains': lambda run: __import__('bounded.c_sweeps', fromlis
 _WPS_LAYOUT = ['dd_dtw.c::dtw_wps_parts', 'dd_dtw.c::dtw_settings_wps_length', 'dd_dtw.c::dtw_settings_wps_width', 'dd_dtw.c::dtw_wps_loc',
                'dd_dtw.c::dtw_wps_loc_columns']
 _WPS_VALUE = ['dd_dtw.c::dtw_wps_negativize_value', 'dd_dtw.c::dtw_wps_positivize_value', 'dd_dtw.c::dtw_wps_max']
+_TRACEBACK = ['dd_dtw.c::dtw_best_path', 'dd_dtw.c::dtw_best_path_isclose', 'dd_dtw.c::dtw_best_path_customstart']
 _ALL_C_PROVED = (PROPS['C09']['contracts'][:10] + PROPS['C06']['contracts'][6:] + PROPS['C07']['contracts'] + PROPS['C02']['contracts']
-                 + _WPS_LAYOUT + _WPS_VALUE + ['dd_dtw.c::dtw_best_path'])
+                 + _WPS_LAYOUT + _WPS_VALUE + _TRACEBACK)
 
 PROPS['C08'] = dict(
     modules=['contracts.ed_c', 'contracts.bounds_c', 'contracts.dtw_matrix_c', 'contracts.dtw_omp_c', 'contracts.dtw_c', 'contracts.wps_c', 'contracts.bestpath_c'],
@@ -209,9 +210,9 @@ PROPS['C08'] = dict(
             'RowAllInf', 'RowLeadInf', 'FoldMinIsMin'],
     bounded=dict(_CML, **dict(_CAFF, **_CDBA)),
     level='proof',
-    level_text='For 38 exported C routines (Euclidean bounds, LB_Keogh, block/length helpers, the six serial and six OpenMP '
+    level_text='For 40 exported C routines (Euclidean bounds, LB_Keogh, block/length helpers, the six serial and six OpenMP '
                'distance-matrix routines with their prepare step, the four DTW kernels, and the compact-layout helpers dtw_wps_parts, '
-               'dtw_settings_wps_length/width, dtw_wps_loc, dtw_wps_loc_columns, dtw_wps_max, dtw_wps_negativize_value/positivize_value, and the traceback dtw_best_path -- for every content of the compact matrix) every array access, every signed idx_t '
+               'dtw_settings_wps_length/width, dtw_wps_loc, dtw_wps_loc_columns, dtw_wps_max, dtw_wps_negativize_value/positivize_value, and the tracebacks dtw_best_path, dtw_best_path_isclose, dtw_best_path_customstart (start cell in the band) -- for every content of the compact matrix) every array access, every signed idx_t '
                'operation, every division, every assert() and every pointer dereference is a discharged obligation under the '
                'documented buffer sizes, for all lengths/windows/psi/blocks. The remaining exported routines (cost matrix in the '
                'compact layout, expansion, slices, best path, warping path) are covered by a *bounded* sanitizer sweep only.',
@@ -261,7 +262,7 @@ PROPS['C04'] = dict(
 PROPS['C05'] = dict(
     modules=['contracts.dtw_c', 'contracts.paths_py', 'contracts.wps_c', 'contracts.bestpath_c'],
     contracts=['dtw.best_path', 'dtw.best_path#wf', 'dtw.best_path#cost', 'dtw.warping_path', 'dtw.warping_path#cost',
-               'dd_dtw.c::dtw_best_path'],
+               'dd_dtw.c::dtw_best_path', 'dd_dtw.c::dtw_best_path_isclose', 'dd_dtw.c::dtw_best_path_customstart'],
     lemmas=['WNonneg'],
     bounded=dict(_CM, **{'path-validity-native-sweep': lambda run: _native_sweep(
         'paths_native.py',
@@ -296,11 +297,10 @@ PROPS['C05'] = dict(
                  'pass it on: KF-C05-2): bounded only; the telescoping of the exact links into one sum is a one-line induction stated '
                  'in DESIGN 10.11, not machine-checked',
                  'psi-relaxed start / end cells and the -1 marks: bounded only',
-                 'C traceback dtw_best_path: the value-independent part is proved for every content of the compact matrix (all reads '
+                 'C tracebacks dtw_best_path, _isclose, _customstart (start cell in the band): the value-independent part is proved for every content of the compact matrix (all reads '
                  'inside the buffer of the advertised size, all writes inside the l1+l2 index arrays, emitted pairs are series indices, '
                  'non-increasing in both coordinates, at most l1+l2 of them, wps unchanged); that each step goes to a least candidate and '
-                 'the cost clause: bounded only (sanitizer chains + native sweep); dtw_best_path_customstart / _isclose / _affinity / '
-                 '_prob: bounded only', 'dtw_ndim.warping_path, custom start cell (row / col): bounded only'],
+                 'the cost clause: bounded only (sanitizer chains + native sweep); dtw_best_path_affinity / _prob: bounded only', 'dtw_ndim.warping_path, custom start cell (row / col): bounded only'],
     technique='sidecar contracts on the real dtw.best_path and dtw.warping_path (modular: callee contracts at the two calls), VCs '
               'discharged by z3 / cvc5; symbolic lists of index pairs; bounded sweep of all path routines of both engines',
 )
